@@ -254,8 +254,20 @@ func (v *Value) getMember(member Value, fill bool) (*Cell, error) {
 		if member.Tag != ValueNum && v.Proto != nil {
 			return v.Proto.GetMember(member)
 		}
-		index := int(*member.Num)
 		arr := *v.Array
+
+		// an index beyond the range of int is past the end (or before the
+		// start) like any other large index; converting it would wrap around
+		if *member.Num >= 1<<62 {
+			if !fill {
+				return nil, nil
+			}
+			return nil, fmt.Errorf("index too large to auto-fill array")
+		}
+		if *member.Num <= -(1 << 62) {
+			return nil, fmt.Errorf("index out of range")
+		}
+		index := int(*member.Num)
 
 		if index < 0 {
 			index = len(arr) + index
